@@ -284,6 +284,15 @@ func runC04(cfg config) {
 		if i%10 == 1 {
 			t = time.Date(2023, 12, 31, 0, 0, 0, 0, zone)
 		}
+		if i%4 == 1 {
+			t = t.Add(time.Duration(r.intn(1000000)) * time.Nanosecond) // below the millisecond: now / today / timeOfDay all truncate
+		}
+		if i%20 == 5 {
+			t = time.Date(2024, 12, 31, 23, 59, 59, 999600000, zone)
+		}
+		if i%20 == 15 {
+			t = time.Date(2023, 6, 30, 12, 0, 30, 123500000, zone)
+		}
 		if i%20 == 2 {
 			t = time.Time{} // the zero instant is an instant like any other
 		}
